@@ -5,6 +5,11 @@ use dmntk_feel::values::{Value, Values};
 use dmntk_feel::{FeelType, Scope};
 use dmntk_feel::FeelNumber;
 
+// The server crate exports only start_server; its DTO module is compiled into the driver from the repository's source file.
+#[allow(dead_code)]
+#[path = "/repo/server/src/dto.rs"]
+mod dto;
+
 fn eval(expr: &str) -> String {
   let e = expr.to_string();
   let r = std::panic::catch_unwind(move || {
@@ -20,6 +25,16 @@ fn eval(expr: &str) -> String {
   match r {
     Ok(s) => s,
     Err(_) => "PANIC".to_string(),
+  }
+}
+
+/// null messages are not part of a value: Null(_) -> Null(None), recursively
+fn norm(v: &Value) -> Value {
+  match v {
+    Value::Null(_) => Value::Null(None),
+    Value::List(items) => Value::List(Values::new(items.as_vec().iter().map(norm).collect())),
+    Value::Context(ctx) => { let mut c = dmntk_feel::context::FeelContext::default(); for (k, x) in ctx.iter() { c.set_entry(k, norm(x)); } Value::Context(c) }
+    other => other.clone(),
   }
 }
 
@@ -168,6 +183,50 @@ fn main() {
         out.push_str(&r); out.push('\n');
       }
       print!("{}", out);
+    }
+    Some("tck") => {
+      // BOUNDED stand-in (not a proof): values -> TCK DTO -> JSON text (serde_json) -> TCK DTO -> value must give the value back
+      // (null messages aside), for scalars of every TCK kind and for lists / contexts nested up to depth 3.
+      use std::convert::TryFrom;
+      let scope = Scope::default();
+      let lit = |e: &str| -> Value { match dmntk_feel_parser::parse_expression(&scope, e, false).and_then(|n| dmntk_feel_evaluator::prepare(&n)) { Ok(ev) => ev(&scope), Err(_) => Value::Null(None) } };
+      let scalars: Vec<&str> = vec![r#""""#, r#""a""#, r#""\u017C \"q\" \\ end""#, r#""line\nbreak""#, "0", "1", "-1", "1.5", "0.1", "100", "12345678901234567890.123456789", "0.000001", "-0.5", "10 ** 30",
+        "true", "false", "null", r#"date("2020-02-29")"#, r#"date("0044-03-15")"#, r#"time("10:11:12")"#, r#"time("10:11:12.5Z")"#, r#"time("10:11:12+02:00")"#, r#"time("23:59:59-00:30")"#,
+        r#"date and time("2020-01-02T03:04:05")"#, r#"date and time("2020-01-02T03:04:05Z")"#, r#"date and time("2020-01-02T03:04:05.25+01:00")"#,
+        r#"duration("P1Y2M")"#, r#"duration("-P11M")"#, r#"duration("P1DT2H3M4S")"#, r#"duration("-PT0.5S")"#, r#"duration("P0D")"#];
+      let mut level: Vec<String> = scalars.iter().map(|s| s.to_string()).collect();
+      let mut all: Vec<String> = level.clone();
+      for _depth in 0..2 {
+        let mut next: Vec<String> = vec!["[]".to_string(), "{}".to_string()];
+        for (i, e) in level.iter().enumerate() {
+          next.push(format!("[{}]", e));
+          next.push(format!("{{a: {}}}", e));
+          if i + 1 < level.len() { next.push(format!("[{}, {}]", e, level[i + 1])); next.push(format!("{{first name: {}, b: {}}}", e, level[i + 1])); }
+        }
+        all.extend(next.iter().cloned());
+        level = next;
+      }
+      let mut cases = 0usize;
+      let mut failures: Vec<String> = vec![];
+      let mut nfail = 0usize;
+      for e in &all {
+        let v = lit(e);
+        if let Value::Null(Some(_)) = v { if e != "null" { continue; } }
+        cases += 1;
+        let e2 = e.clone();
+        let r = std::panic::catch_unwind(std::panic::AssertUnwindSafe(move || -> std::result::Result<(), String> {
+          let d = dto::ValueDto::try_from(&v).map_err(|x| format!("encode error {}", x))?;
+          let text = serde_json::to_string(&d).map_err(|x| format!("serialize error {}", x))?;
+          let d2: dto::ValueDto = serde_json::from_str(&text).map_err(|x| format!("the service's own JSON does not parse: {} in {}", x, text))?;
+          let w = dto::WrappedValue::try_from(&d2).map_err(|x| format!("decode error {} for {}", x, text))?;
+          let same = norm(&v) == norm(&w.0);
+          if same { Ok(()) } else { Err(format!("came back as {} via {}", w.0, text)) }
+        }));
+        let msg = match r { Ok(Ok(())) => None, Ok(Err(m)) => Some(m), Err(_) => Some("PANIC".to_string()) };
+        if let Some(m) = msg { nfail += 1; if failures.len() < 5 { failures.push(format!("{} {}", e2, m.chars().take(300).collect::<String>())); } }
+      }
+      println!("tck cases={} failures={}", cases, nfail);
+      for f in failures { println!("FAIL {}", f); }
     }
     Some("scopes") => {
       // BOUNDED stand-in (not a proof): every stack of up to <max> contexts in which each context either binds `x` (to its
